@@ -35,7 +35,7 @@ from loguru import logger
 from src.cli.linters.shared import (
     ensure_config_section,
     extract_command_context,
-    set_config_value,
+    set_config_value_for_languages,
 )
 from src.cli.main import cli
 from src.cli.utils import (
@@ -80,7 +80,7 @@ def _apply_nesting_config_override(
 
 def _apply_nesting_to_languages(nesting_config: dict, max_depth: int) -> None:
     """Apply max_depth to language-specific configs."""
-    for lang in ["python", "typescript", "javascript"]:
+    for lang in ["python", "typescript", "javascript", "rust"]:
         with suppress(KeyError):
             nesting_config[lang]["max_nesting_depth"] = max_depth
 
@@ -210,8 +210,8 @@ def _apply_srp_config_override(
         return
 
     srp_config = ensure_config_section(orchestrator, "srp")
-    set_config_value(srp_config, "max_methods", max_methods, verbose)
-    set_config_value(srp_config, "max_loc", max_loc, verbose)
+    set_config_value_for_languages(srp_config, "max_methods", max_methods, verbose)
+    set_config_value_for_languages(srp_config, "max_loc", max_loc, verbose)
 
 
 def _run_srp_lint(
